@@ -523,9 +523,8 @@ Proof.
   intros [Hn Hs] H. unfold gen_resource in H. destruct (gen_node secret g) as [n| | |] eqn:EN; cbn [bind] in H; try discriminate.
   inv H. split; [split; [exact I|]|constructor]. cbn [r_node].
   unfold gen_node in EN. destruct (String.eqb (pg_name g) ""); [discriminate|].
-  destruct (mapM Generators.parse_literal (pg_literals g)) as [kvs| | |]; cbn [bind] in EN; try discriminate.
-  destruct (Generators.validated_map kvs []) as [m| | |]; cbn [bind] in EN; try discriminate.
-  destruct (negb secret && _); [discriminate|]. inv EN.
+  destruct (gen_pairs g) as [kvs| | |]; cbn [bind] in EN; try discriminate.
+  destruct (Generators.validated_map kvs []) as [m| | |]; cbn [bind] in EN; try discriminate. inv EN.
   eexists _, _, TStr, SPlain, (pg_name g), (str_node (if secret then "Secret" else "ConfigMap")).
   split; [reflexivity|]. split; [reflexivity|]. split; [reflexivity|]. split; [discriminate|]. split; [exact Hn|].
   split; [reflexivity|]. split; [destruct secret; reflexivity|].
@@ -690,10 +689,19 @@ Lemma np_gen_resource secret g : np (gen_resource secret g).
 Proof.
   unfold gen_resource. apply np_bind; [|intros; discriminate]. unfold gen_node.
   destruct (String.eqb (pg_name g) ""); [discriminate|].
-  apply np_bind; [apply np_mapM_in; intros; unfold Generators.parse_literal; np_case|]. intros kvs _.
-  apply np_bind; [|intros; np_case].
-  generalize (@nil (string * string)). induction kvs as [|[k v] t IH]; intros acc; cbn; [discriminate|].
-  destruct (Generators.dict_get k acc); [discriminate|apply IH].
+  apply np_bind.
+  - unfold gen_pairs. apply np_bind.
+    + induction (pg_envs g) as [|c t IH]; cbn [map Generators.concat_res]; [discriminate|].
+      apply np_bind.
+      * generalize true. induction (Generators.scan_lines "" c) as [|l ls IHl]; intros first; cbn [Generators.env_lines]; [discriminate|].
+        apply np_bind; [unfold Generators.env_line; np_case|]. intros p _. apply np_bind; [apply IHl|]. intros; discriminate.
+      * intros x _. apply np_bind; [exact IH|]. intros; discriminate.
+    + intros e _. apply np_bind; [apply np_mapM_in; intros; unfold Generators.parse_literal; np_case|]. intros l _.
+      apply np_bind; [|intros; discriminate]. apply np_mapM_in. intros sc _.
+      apply np_bind; [unfold Generators.parse_file_source; np_case|]. intros; discriminate.
+  - intros kvs _. apply np_bind; [|intros; discriminate].
+    generalize (@nil (string * string)). induction kvs as [|[k v] t IH]; intros acc; cbn; [discriminate|].
+    destruct (Generators.dict_get k acc); [discriminate|apply IH].
 Qed.
 
 Lemma np_matching_any id m : Forall W m -> forall i, np (matching_any id i m).
